@@ -262,9 +262,30 @@ def _replay_failure(f):
     import c07_unit
     rows, opts, _ = L.registry(strict=False)
     if "case" in f and isinstance(f["case"], dict) and "manifest" in f["case"]:
-        fails, _, stats = c07_e2e.run_case(f["case"], rows, want_model=False)
-        return {"fails": bool(fails), "failures": fails[:5], "url": c07_e2e.case_url(f["case"]),
-                "status": stats["status"]}
+        case = {k: v for k, v in f["case"].items() if k != "_reissue"}
+        fails, _, stats = c07_e2e.run_case(case, rows, want_model=False)
+        history = "none (fresh process)"
+        if not fails:
+            # the failure may need what came before it: re-create the history of the channel – the fixed grid
+            # (all stream-default sets, both streams, every template and mode) – and ask again
+            import c07_grid
+            first = None
+            for h in c07_grid.grid():
+                try:
+                    _, _, st = c07_e2e.run_case(h, rows, want_model=False)
+                except Exception:
+                    continue
+                if first is None and c07_e2e.case_url(h) == c07_e2e.case_url(case) and \
+                        h.get("defaults", "A") == case.get("defaults", "A") and h["now"] == case["now"]:
+                    first = (st["status"], tuple(sorted(st.get("url_list", []))))
+            fails, _, stats = c07_e2e.run_case(case, rows, want_model=False)
+            history = "the fixed grid of opt_e2e (harness/c07_grid.py) before the case"
+            again = (stats["status"], tuple(sorted(stats.get("url_list", []))))
+            if not fails and first is not None and first != again:
+                fails = [{"what": "re-issued after the grid, the request advertises other media URLs",
+                          "first": list(first[1])[:6], "now": list(again[1])[:6]}]
+        return {"fails": bool(fails), "failures": fails[:5], "url": c07_e2e.case_url(case),
+                "status": stats["status"], "history": history}
     if "unit" in f:
         for row, opt in zip(rows, opts):
             if row["cgi"] == f["unit"]:
